@@ -507,8 +507,13 @@ func e2eGen(r *vf.Rand, rules []e2eRule, upHost string) e2eCase {
 		for _, h := range c.Headers {
 			if http.CanonicalHeaderKey(h[0]) == "X-Forwarded-Uri" {
 				if h[1] != "" {
+					// as extractURL reads it (since f446e16 / d3f6cd7): the query as sent; a value
+					// url.Parse rejects is split at the first '?'
 					if u, err := url.Parse(h[1]); err == nil {
-						c.Xfu = &[2]string{u.EscapedPath(), u.Query().Encode()}
+						c.Xfu = &[2]string{u.EscapedPath(), u.RawQuery}
+					} else {
+						p, q, _ := strings.Cut(h[1], "?")
+						c.Xfu = &[2]string{p, q}
 					}
 				}
 
